@@ -277,7 +277,15 @@ type c04Stats struct {
 
 // c04History runs one concurrent history and checks it.  report is called for violations.
 func c04History(run *evid.Run, r *rand.Rand, env *Env, l *learner, st *steer, h int, report func(what string, witness any)) (ops []porcupine.Operation) {
-	env.FreshKeys(c04Keys)
+	via := ViaService
+	if env.Wire != nil {
+		via = ViaWire
+		if !env.WireKeys(c04Keys) {
+			return nil
+		}
+	} else {
+		env.FreshKeys(c04Keys)
+	}
 	clients := 6 + r.Intn(3)
 	perClient := 4 + r.Intn(2)
 	type planned struct {
@@ -362,12 +370,12 @@ func c04History(run *evid.Run, r *rand.Rand, env *Env, l *learner, st *steer, h 
 				var res []core.Result
 				switch p.in.Kind {
 				case "att":
-					v, _ := env.SignAtt(ViaService, p.atts[0])
+					v, _ := env.SignAtt(via, p.atts[0])
 					res = []core.Result{v}
 				case "atts":
-					res, _ = env.SignAtts(ViaService, p.atts)
+					res, _ = env.SignAtts(via, p.atts)
 				case "prop":
-					v, _ := env.SignProp(ViaService, p.prop)
+					v, _ := env.SignProp(via, p.prop)
 					res = []core.Result{v}
 				}
 				ret := time.Since(start).Nanoseconds()
@@ -397,20 +405,17 @@ func c04History(run *evid.Run, r *rand.Rand, env *Env, l *learner, st *steer, h 
 	close(barrier)
 	wg.Wait()
 	st.on.Store(false)
-	// Final read of every key's stored state, appended as an operation after quiescence.
+	// Final read of every key's stored state, appended as an operation after quiescence.  Over the wire the
+	// database is read once the daemon has stopped (the keys of a history are never used again).
 	var rd c04State
-	for k := 0; k < c04Keys; k++ {
-		rs, err := env.Stack.ReadState(env.Keys[k].Pub)
-		if err != nil {
-			report("cannot read final state: "+err.Error(), nil)
-			return nil
-		}
-		rd[k] = kst{-1, -1, -1}
-		if rs.HasAtt {
-			rd[k].Src, rd[k].Tgt = int8(rs.Src), int8(rs.Tgt)
-		}
-		if rs.HasProp {
-			rd[k].Slot = int8(rs.Slot)
+	if env.Wire == nil {
+		for k := 0; k < c04Keys; k++ {
+			rs, err := env.Stack.ReadState(env.Keys[k].Pub)
+			if err != nil {
+				report("cannot read final state: "+err.Error(), nil)
+				return nil
+			}
+			rd[k] = kstOf(rs)
 		}
 	}
 	t := time.Since(start).Nanoseconds()
@@ -424,8 +429,93 @@ func c04History(run *evid.Run, r *rand.Rand, env *Env, l *learner, st *steer, h 
 			nextClient++
 		}
 	}
-	ops = append(ops, porcupine.Operation{ClientId: clients, Input: c04In{Kind: "read"}, Call: t, Output: c04Out{Read: rd}, Return: t + 1})
+	if env.Wire == nil {
+		ops = append(ops, porcupine.Operation{ClientId: clients, Input: c04In{Kind: "read"}, Call: t, Output: c04Out{Read: rd}, Return: t + 1})
+	}
 	return ops
+}
+
+func kstOf(rs rig.RawState) kst {
+	k := kst{-1, -1, -1}
+	if rs.HasAtt {
+		k.Src, k.Tgt = int8(rs.Src), int8(rs.Tgt)
+	}
+	if rs.HasProp {
+		k.Slot = int8(rs.Slot)
+	}
+	return k
+}
+
+// c04WireSlice records concurrent histories over TLS/gRPC against the real daemon (main.go's own wiring of
+// locker, ruler and rules); the final reads are taken from the daemon's database after it has stopped.
+func c04WireSlice(run *evid.Run, cfg Cfg, l *learner, report func(string, any)) {
+	r := cfg.Rand("c04-wire")
+	histories := cfg.N(12, 150)
+	w, err := NewWireRig(cfg, "c04-wire", c04Keys*histories, nil)
+	if err != nil {
+		run.Inconclusive("cannot start daemon for the wire slice: " + err.Error())
+		return
+	}
+	defer w.Close()
+	env := NewWireEnv(run, w)
+	st := newSteer(0)
+	var all [][]porcupine.Operation
+	var keys [][]*rig.Key
+	for h := 0; h < histories; h++ {
+		ops := c04History(run, r, env, l, st, h, report)
+		if ops == nil {
+			break
+		}
+		all = append(all, ops)
+		keys = append(keys, append([]*rig.Key{}, env.Keys...))
+	}
+	alive := w.D.Alive()
+	w.D.Stop()
+	if !alive {
+		run.Inconclusive("daemon died during the wire slice: " + w.D.LogTail(400))
+		return
+	}
+	svc, err := rig.OpenRules(w.D.Opts.Dir)
+	if err != nil {
+		run.Inconclusive("cannot open the daemon's database: " + err.Error())
+		return
+	}
+	exp, err := exportTrips(svc)
+	_ = svc.Close(context.Background())
+	if err != nil {
+		run.Inconclusive(err.Error())
+		return
+	}
+	model := c04Model(l)
+	for h, ops := range all {
+		var rd c04State
+		var last int64
+		for k, key := range keys[h] {
+			rd[k] = kst{-1, -1, -1}
+			if t, ok := exp[key.Pub48()]; ok {
+				rd[k] = kst{int8(t.Src), int8(t.Tgt), int8(t.Slot)}
+			}
+		}
+		for _, op := range ops {
+			if op.Return > last && !c04Indeterminate(op.Input.(c04In), op.Output.(c04Out)) {
+				last = op.Return
+			}
+		}
+		ops = append(ops, porcupine.Operation{ClientId: 99, Input: c04In{Kind: "read"}, Call: last + 1, Output: c04Out{Read: rd}, Return: last + 2})
+		res, _ := porcupine.CheckOperationsVerbose(model, ops, 60*time.Second)
+		run.Count("wire_histories_checked", 1)
+		run.Count("wire_operations", len(ops))
+		run.Count("wire_overlapping_same_key_pairs", c04Overlaps(ops))
+		switch res {
+		case porcupine.Illegal:
+			report(fmt.Sprintf("wire history %d (%d operations against the real daemon) has no sequential explanation compatible with real-time order", h, len(ops)), c04Witness(ops, porcupine.LinearizationInfo{}))
+		case porcupine.Unknown:
+			run.Inconclusive("porcupine timed out on a wire history")
+		}
+	}
+	if run.Get("wire_histories_checked") == 0 || run.Get("wire_overlapping_same_key_pairs") == 0 {
+		run.Inconclusive("the wire slice observed no overlapping operations")
+	}
 }
 
 func c04Overlaps(ops []porcupine.Operation) int {
@@ -551,6 +641,12 @@ func C04(cfg Cfg) int {
 	}
 	if stats.overlaps == 0 {
 		run.Inconclusive("no overlapping same-key operations were observed")
+	}
+	if l, err := newLearner(run, cfg, "c04learn-wire"); err == nil {
+		c04WireSlice(run, cfg, l, func(w string, wit any) { run.Violate(w, wit) })
+		l.env.Stack.Close()
+	} else {
+		run.Inconclusive(err.Error())
 	}
 	raceChild(run, cfg, "C04race")
 	return run.Finish()
